@@ -710,6 +710,7 @@ def dispatch (kind : String) (args res : List String) : Except String (Findings 
   | "tah" => TaHist.check args res
   | "mth" => MtHist.check false args res
   | "parse" => ParseChk.check args res
+  | "parse2" => ParseChk.check2 args res
   | "meta" => MetaChk.check args res
   | "bddincl" => BddChk.checkIncl args res
   | "bddinclall" => BddChk.checkInclAll args res
